@@ -864,14 +864,17 @@ fn gen_plant(g: &mut G, files: &mut Vec<FileGen>, pfile: usize, avoid_known: boo
                         p.refs.push(ns);
                     }
                     Style::From => {
-                        if in_block {
-                            p.spelling = "def0".into();
-                            p.line = sub(UNRESOLVED_DEF[0]);
-                        } else {
-                            p.spelling = "from-import".into();
-                            p.line = format!("from {} use nope", files[to].use_path);
-                            p.refs.push(format!("file:{}", files[to].path));
-                        }
+                        // an import statement lives at top level
+                        p.stmt = None;
+                        p.wraps.clear();
+                        p.piece = late(g, npieces);
+                        p.spelling = "from-import".into();
+                        p.line = match g.t.below(3) {
+                            0 => format!("from {} use nope", files[to].use_path),
+                            1 => format!("from {} use nope as {}", files[to].use_path, x),
+                            _ => format!("from {} use (nope)", files[to].use_path),
+                        };
+                        p.refs.push(format!("file:{}", files[to].path));
                     }
                 }
             } else if in_block && g.t.chance(1, 3) {
@@ -938,8 +941,10 @@ fn gen_plant(g: &mut G, files: &mut Vec<FileGen>, pfile: usize, avoid_known: boo
                     p.setup.push(format!("zc{} :: 1", k));
                     (format!("zc{}", k), "int")
                 }
-            } else if which == 4 && !files[pfile].fns.is_empty() {
-                let f = files[pfile].fns[g.t.below(files[pfile].fns.len())].clone();
+            } else if which == 4 && fn_limit(files, pfile, &p) > 0 {
+                // (an assignment target is a dependency: only functions generated before the enclosing one)
+                let lim = fn_limit(files, pfile, &p);
+                let f = files[pfile].fns[g.t.below(lim)].clone();
                 p.spelling = "function-name".into();
                 p.refs.push(f.name.clone());
                 (f.name, "int")
@@ -969,11 +974,7 @@ fn gen_plant(g: &mut G, files: &mut Vec<FileGen>, pfile: usize, avoid_known: boo
         "argument" => {
             // the annotated function: own, imported (import piece must exist already), or defined right before
             // inside an existing function only functions generated before it may be called (no dependency cycles)
-            let container: Option<String> = if p.stmt.is_some() { files[pfile].pieces[p.piece].defines.first().map(|(n, _)| n.clone()) } else { None };
-            let limit = match &container {
-                Some(c) if c != "start" => files[pfile].fns.iter().position(|f| &f.name == c).unwrap_or(0),
-                _ => files[pfile].fns.len(),
-            };
+            let limit = fn_limit(files, pfile, &p);
             let own: Vec<FnInfo> = files[pfile].fns[..limit].iter().filter(|f| !f.params.is_empty()).cloned().collect();
             let imported: Vec<(usize, FnInfo)> =
                 files[pfile].imports.clone().iter().flat_map(|(j, _)| files[*j].fns.iter().filter(|f| !f.params.is_empty()).map(move |f| (*j, f.clone()))).collect();
@@ -1093,6 +1094,16 @@ fn gen_plant(g: &mut G, files: &mut Vec<FileGen>, pfile: usize, avoid_known: boo
         p.trailer.clear();
     }
     p
+}
+
+/// how many of the file's functions (in generation order) the code at the plant position may mention without closing a
+/// dependency cycle: inside an existing function only the functions generated before it
+fn fn_limit(files: &[FileGen], pfile: usize, p: &Plant) -> usize {
+    let container: Option<String> = if p.stmt.is_some() { files[pfile].pieces[p.piece].defines.first().map(|(n, _)| n.clone()) } else { None };
+    match &container {
+        Some(c) if c != "start" => files[pfile].fns.iter().position(|f| &f.name == c).unwrap_or(0),
+        _ => files[pfile].fns.len(),
+    }
 }
 
 fn decorate(g: &mut G, p: &mut Plant) {
